@@ -730,7 +730,7 @@ func (fv *FnV) doReturn(st *State, ins *ssa.Return) error {
 	}
 	pos := ins.Pos()
 	// postconditions
-	if fv.k != nil {
+	if fv.k != nil && fv.k.Trusted == "" {
 		env := fv.contractEnv(st, fv.entry, results)
 		for _, cl := range fv.k.Ensures {
 			t, err := env.evalBool(cl.Text)
